@@ -45,12 +45,15 @@ def run_types():
         "r_dji_capoff": dict(cc="DJI", preset="net_nuclear_resilient_caps_off",
                              options=dict(P["net_nuclear_resilient"], intake_constraints="disabled_for_humans")),
         "r_arg_own48": dict(cc="ARG", preset="net_baseline_own_horizon_48", options=dict(P["net_baseline"], NMONTHS=48)),
-        "r_arg_herd": dict(cc="ARG", preset="net_baseline_custom_herd", options=dict(P["net_baseline"], meat_cattle_head=5000000, pig_head=100000,
-                                                                                                   # (... and every other kind of numeric override a run can carry)
-                                                                                                   kg_meat_per_large_animal=150, retail_waste_baseline=0.10,
-                                                                                                   MINIMUM_PERCENT_FED_BEFORE_NONHUMAN_CONSUMPTION_ALLOWED=90,
-                                                                                                   CROP_PRODUCTION_MULTIPLIER=0.95, GRASSES_PRODUCTION_MULTIPLIER=0.9,
-                                                                                                   RATIO_STOCKS_UNTOUCHED=0.5)),
+        # (also the one run of Argentina under a crop disruption with another seasonality and another stock regime than its neighbours)
+        "r_arg_herd": dict(cc="ARG", preset="nw_custom_herd", options=dict(P["net_nuclear_winter"], seasonality="no_seasonality",
+                                                                           ratio_stocks_untouched="baseline_no_stored_between_years",
+                                                                           meat_cattle_head=5000000, pig_head=100000,
+                                                                           # (... and every other kind of numeric override a run can carry)
+                                                                           kg_meat_per_large_animal=150, retail_waste_baseline=0.10,
+                                                                           MINIMUM_PERCENT_FED_BEFORE_NONHUMAN_CONSUMPTION_ALLOWED=90,
+                                                                           CROP_PRODUCTION_MULTIPLIER=0.95, GRASSES_PRODUCTION_MULTIPLIER=0.9,
+                                                                           RATIO_STOCKS_UNTOUCHED=0.5)),
         "r_arg_base": dict(cc="ARG", preset="net_baseline", options=P["net_baseline"]),
         "r_usa_nw": dict(cc="USA", preset="net_nuclear_winter", options=dict(P["net_nuclear_winter"], NMONTHS=84)),
         "r_dji_res": dict(cc="DJI", preset="net_nuclear_resilient", options=P["net_nuclear_resilient"]),
